@@ -84,8 +84,9 @@ class CallTrigger:
         methods were not enabled. In case we only want to focus on the cycles when one of the calls succeeded,
         `until_done` can be used. This works like `until()` in `TickTrigger`.
         """
+        is_call = [isinstance(v, tuple) for v in self.calls_and_values]
         async for results in self:
-            if any(res is not None for res in results):
+            if any(res is not None for res, call in zip(results, is_call) if call):
                 return results
 
     async def until_all_done(self) -> Any:
